@@ -24,7 +24,8 @@ import outlib as L
 import vlib
 
 THEOREMS = ["C18_fold_one_to_one", "C18_fold_count", "C18_fold_kinds", "C18_fold_starts_at_first_token",
-            "C18_fold_wf", "C18_fold_laminar", "C18_fold_source_order"]
+            "C18_fold_wf", "C18_fold_laminar", "C18_fold_source_order",
+            "C18_outline_file_list", "C18_outline_of_file", "C18_outline_entry", "C18_outline_children_order"]
 TRUSTED = [
     "Coq 8.16.1 kernel; vm_compute only in the Examples; no axioms (Print Assumptions: closed under the global context)",
     "shared green-tree model coq/model/Tree.v (ranges derived from leaf byte lengths; descendants() = preorder nodes; "
@@ -34,8 +35,12 @@ TRUSTED = [
     "Coq extraction (ExtrOcamlBasic only), coq/extract/outline_driver.ml, lib/treeio.py (serialisation of the real tree)",
     "Rust harness parsedump.rs / idedump.rs, this Python driver, lib/outlib.py (reference oracle), lib/outgen.py "
     "(generator whose expected outline / folding is known by construction)",
-    "outline part: what the indexer puts into the symbol table for a declaration is exercised, not proven, here "
-    "(generator oracle); the proof part about the symbol table is listed under theorems",
+    "outline part: hand model coq/model/Outline.v of document_symbol.rs over the symbol-map state machine coq/model/SymbolMap.v "
+    "(group symmap: arenas as lists, IndexMap/HashMap as association lists, per-file list, interval map); tied to the code by replaying "
+    "the REAL op log (hook H3, --cfg tablegen_lsp_verif) in the extracted model and comparing its document symbols (name, typ, range, kind, "
+    "children) with the real handler's on every generated workspace; the Type strings are not in the log and are taken from the final state",
+    "which ops the indexer emits for a declaration (index.rs) is exercised, not proven, here: that is the generator oracle "
+    "(expected outline known by construction)",
 ]
 
 
@@ -83,6 +88,7 @@ def fold_cases_from_texts(ctx, bindir, exe, sk_index, texts, label, stats, fails
 def run(ctx):
     t0 = time.time()
     bindir = vlib.build_harness(False, bins=["parsedump", "idedump"])
+    bindir_h = vlib.build_harness(True, bins=["outdump"])
     fails = vlib.proof_step(ctx, "TG.Props.C18", THEOREMS, ["props/C18.vo"], trusted_base=TRUSTED,
                             translators=["t_tokens", "t_foldkinds"])
     exe = vlib.build_model("outline")
@@ -137,6 +143,12 @@ def run(ctx):
             if realf != expf:
                 found["oracle"].append({"kind": "folding-by-construction", "source": "generated", "files": w["files"],
                                         "root": w["root"], "file": fname, "expected": expf, "observed": realf})
+    # symbol-table model: replay of the real op log -> document symbols, compared with the real handler
+    dumps = L.outdump(bindir_h, [{"files": w["files"], "root": w["root"], "offsets": "none", "hint_ranges": []} for w in wss])
+    sym_bad, sym_stats = L.sym_compare(exe, sk_index, list(zip(wss, dumps)), want_hover=False, want_hints=False)
+    stats.update(sym_stats)
+    for b in sym_bad:
+        found["corr"].append(dict(b, source="generated", text=dict((x, y) for x, y in b["files"]).get(b.get("file", b["root"]), "")))
     # the same texts through the tree-level comparison (model, reference)
     gen_texts = [t for w in wss for (_f, t) in w["files"]]
     fold_cases_from_texts(ctx, bindir, exe, sk_index, gen_texts, "generated", stats, found)
@@ -175,7 +187,7 @@ def run(ctx):
             dict(f, property="C18", seed=ctx.seed,
                  oracle="folding: reference on the real tree + ranges known by construction; outline: document symbols known by construction"))
     if found["corr"]:
-        fails.append({"kind": "correspondence", "file": "model-vs-implementation (outline_run fold vs Analysis::folding_range)",
+        fails.append({"kind": "correspondence", "file": "model-vs-implementation (outline_run fold / sym vs Analysis::folding_range / document_symbol)",
                       "count": len(found["corr"]), "first": found["corr"][:3]})
     vlib.broken_ties_to_violations(ctx, fails, bool(found["oracle"]))
 
@@ -195,7 +207,9 @@ def run(ctx):
     ctx.cov["fold_texts_with_two_or_more_ranges"] = stats["fold_nontrivial"]
     ctx.cov["oracle_failures"] = len(found["oracle"])
     ctx.cov["correspondence_disagreements"] = len(found["corr"])
-    ctx.cov["traces_validated_against_impl"] = stats["fold_texts"]
+    ctx.cov["traces_validated_against_impl"] = stats["fold_texts"] + stats.get("sym_workspaces", 0)
+    ctx.cov["op_logs_replayed"] = stats.get("sym_workspaces", 0)
+    ctx.cov["ops_replayed"] = stats.get("sym_ops", 0)
     smp = []
     for w, r in list(zip(wss, ide))[:2]:
         fn, tx = w["files"][-1]
